@@ -19,6 +19,9 @@ for p in props:
         na.append({'property_id': pid, 'reason': 'static check designed (DESIGN.md section 4) but not built yet at this commit; not claimed until its rule set is armed and validated'})
         continue
     m = importlib.import_module('analysis.props.' + pid)
+    if getattr(m, 'INCOMPLETE', False):
+        na.append({'property_id': pid, 'reason': 'static check partly built (DESIGN.md section 4); not claimed until its full rule set is armed and validated'})
+        continue
     checks.append({
         'property_id': pid,
         'quick_cmd': 'python3-vt bin/check.py %s --tier quick' % pid,
